@@ -627,7 +627,48 @@ type C06Prof struct {
 	NoFlow             bool
 }
 
+// yTimestamps: plain scalars that YAML types as timestamps; JSON has no such type, they convert to the string of their
+// exact source text (spellings that a re-formatting would change: lower-case t, space separator, short zone, one-digit
+// fields, trailing zeros in the fraction)
+var yTimestamps = []string{"2001-12-14t21:59:43.10-05:00", "2001-12-14 21:59:43.10 -5", "2002-12-14", "2001-12-14T21:59:43.0Z", "2001-12-14T21:59:43.000Z",
+	"2001-1-2 3:04:05", "2001-12-15 2:59:43.10", "2015-02-24T18:19:39.120+00:00", "2015-02-24T18:19:39Z", "2015-02-24t18:19:39.5-00:00", "1999-12-31 23:59:59.999999999 +05:30"}
+
+// yTaggedQuoted: a number / boolean / null written in quotes behind its explicit core tag: the tag decides the type
+func yTaggedQuoted(r *rand.Rand) *YN {
+	var n *YN
+	tag := ""
+	switch r.IntN(4) {
+	case 0:
+		n, tag = YInt(r), "!!int"
+		if n.Spell == "octal" || n.Spell == "plus" {
+			n.Text, n.Spell = n.Val.JSON(), "dec"
+		}
+	case 1:
+		n, tag = YBool(r), "!!bool"
+	case 2:
+		n, tag = &YN{Kind: YScalar, Val: ref.NullV(), Text: []string{"", "~", "null"}[r.IntN(3)]}, "!!null"
+	default:
+		f := []string{"0.25", "1.5", "-2.5", "3.0", "1e3", "100.125"}[r.IntN(6)]
+		v, _ := ref.ParseJSON(f)
+		n, tag = &YN{Kind: YScalar, Val: v, Text: f, Spell: "dot"}, "!!float"
+	}
+	q := `"`
+	if r.IntN(2) == 0 {
+		q = "'"
+	}
+	n.Text = tag + " " + q + n.Text + q
+	n.Spell = "tagged-quoted"
+	return n
+}
+
 func C06Scalar(r *rand.Rand, p C06Prof, flow bool) *YN {
+	switch r.IntN(40) {
+	case 38:
+		return yTaggedQuoted(r)
+	case 39:
+		t := yTimestamps[r.IntN(len(yTimestamps))]
+		return &YN{Kind: YScalar, Val: ref.StrV(t), Text: t, Spell: "timestamp"}
+	}
 	switch r.IntN(20) {
 	case 0, 1:
 		return YNull(r, !flow)
